@@ -142,6 +142,14 @@ class VPrim(V):
         self.name, self.fn, self.owner = name, fn, owner
 
 
+class VOpaqueFn(V):
+    """a caller-supplied function: returns whatever `make(args)` builds (typically a fresh unconstrained value)"""
+    cls = "function"
+
+    def __init__(self, make):
+        self.make = make
+
+
 class VSuper(V):
     cls = "super"
 
@@ -366,6 +374,8 @@ class Interp:
             return self.call(f.fn, [f.selfv] + list(args), kwargs)
         if isinstance(f, VPrim):
             return f.fn(self, list(args))
+        if isinstance(f, VOpaqueFn):
+            return f.make(list(args))
         if isinstance(f, VFunc):
             return self.call_func(f, args, kwargs)
         if isinstance(f, VClass):
